@@ -6,7 +6,7 @@ import re
 class Fn:
     __slots__ = ("tu", "d", "id", "qname", "name", "targs", "sig", "file", "line",
                  "record", "kind", "params", "blocks", "entry", "exit", "vars",
-                 "events", "ev_block", "key", "lambda_", "outer", "_shape", "variant", "unknown_helper")
+                 "events", "ev_block", "key", "lambda_", "outer", "_shape", "variant", "unknown_helper", "_live")
 
     def __init__(self, tu, d):
         self.tu = tu
@@ -39,6 +39,7 @@ class Fn:
         self._shape = None
         self.variant = ""
         self.unknown_helper = False
+        self._live = None
 
     @property
     def shape(self):
@@ -63,8 +64,30 @@ class Fn:
     def has_cfg(self):
         return bool(self.blocks)
 
-    def all_events(self):
+    def live_blocks(self):
+        """blocks reachable from the entry along the extractor's reachable successor edges: the dead arm of a plain
+        `if (BOOL_TEMPLATE_PARAM)` keeps its blocks in the CFG but is not part of this instance (seed C14-5)"""
+        if self._live is None:
+            seen = set()
+            if self.entry in self.blocks:
+                seen.add(self.entry)
+                st = [self.entry]
+                while st:
+                    for s in self.blocks[st.pop()].get("succ", []):
+                        t = s["to"] if isinstance(s, dict) else s
+                        if t in self.blocks and t not in seen:
+                            seen.add(t)
+                            st.append(t)
+            else:
+                seen = set(self.blocks)
+            self._live = seen
+        return self._live
+
+    def all_events(self, dead=False):
+        live = None if dead else self.live_blocks()
         for bid in self.blocks:
+            if live is not None and bid not in live:
+                continue
             for ev in self.blocks[bid]["events"]:
                 yield bid, ev
 
